@@ -12,7 +12,9 @@ ThLists == {<<Half(a)>> : a \in ThVals}
       \cup {<<Half(a), Half(b)>> : a \in ThVals, b \in ThVals}
       \cup {<<Half(a), Half(b), Half(d)>> : a \in ThVals, b \in ThVals, d \in ThVals}
 NonDecreasing(ths) == \A k \in 1..(Len(ths) - 1) : Le(ths[k], ths[k + 1])
+Eps == Frac(1, 1000000)          \* a value one millionth away from a threshold is NOT on it
 Values == {Half(n) : n \in -2..6} \cup {NaN, PInf, MInf}     \* -1, -1/2, 0, 1/2, ..., 3 : below / equal / between / above
+          \cup {Add(R(1), Eps), Sub(R(1), Eps), Add(R(2), Eps), Sub(R(2), Eps)}
 CdfVals == {Frac(n, 4) : n \in 0..4}
 
 J(x) == IF IsNaN(x) THEN "nan" ELSE IF IsInf(x) THEN (IF x[1] > 0 THEN "inf" ELSE "-inf") ELSE IF x[2] = 1 THEN x[1] ELSE x
